@@ -286,6 +286,15 @@ def body_E2(ctx):
                     st.items.append(a)
                     await gate(i, 0)
                     st.check("after first await")
+                    if sh.get("shared"):
+                        # several tasks inside the context() of one and the same action at once,
+                        # each coming from its own outer action
+                        with A.context():
+                            st.items.append(A)
+                            await gate(i, 10)
+                            st.check("inside the shared action's context()")
+                            st.items.pop()
+                        st.check("after leaving the shared action's context()")
                     log_message("c:m", who=who)
                     if nawaits >= 2:
                         with start_action(action_type="c:b", who=who) as b:
@@ -378,9 +387,9 @@ OBLIGATIONS = [
         "X",
         desc="asyncio tasks created inside an action with nested actions spanning awaits: all gate orders",
         functions=["current_action", "start_action", "Action.__enter__/__exit__", "log_message"],
-        shards={"quick": [{"tasks": 2, "awaits": 3}, {"tasks": 3, "awaits": 2}], "thorough": [{"tasks": 2, "awaits": 3}, {"tasks": 3, "awaits": 3}]},
+        shards={"quick": [{"tasks": 2, "awaits": 3}, {"tasks": 3, "awaits": 2}, {"tasks": 2, "awaits": 2, "shared": 1}], "thorough": [{"tasks": 2, "awaits": 3}, {"tasks": 3, "awaits": 3}, {"tasks": 3, "awaits": 2, "shared": 1}]},
         twin=[{"tasks": 2, "awaits": 3, "twin_label": "interleaved"}],
         timeout={"quick": 100, "thorough": 600},
-        bounds={"quick": "2 tasks x 3 awaits (20 orders) and 3 tasks x 2 awaits (90 orders), real asyncio loop", "thorough": "3 tasks x 3 awaits (1680 orders)"},
+        bounds={"quick": "2 tasks x 3 awaits (20 orders), 3 tasks x 2 awaits (90 orders), 2 tasks that additionally enter the shared parent action's context() across an await; real asyncio loop", "thorough": "3 tasks x 3 awaits (1680 orders)"},
     ),
 ]
